@@ -14,7 +14,7 @@
    The Gaussian-fit method (scipy curve_fit) is outside the model: swept. *)
 From Coq Require Import List Arith Bool ZArith Reals.
 From PA Require Import base.Arr model.Origin proofs.OriginSums proofs.OriginProofs proofs.OriginConv
-  proofs.OriginImage proofs.OriginTop.
+  proofs.OriginImage proofs.OriginTop proofs.OriginShift.
 Import ListNotations.
 Local Open Scope R_scope.
 
@@ -62,16 +62,35 @@ Theorem C13_com_shift :
 Proof. exact com_shift. Qed.
 Print Assumptions C13_com_shift.
 
-(* ... and the convolution origin of a symmetric image likewise (for images
-   without symmetry the equivariance of the first argmax is checked by the
-   correspondence and the sweep only). *)
-Theorem C13_conv_shift_partial :
-  forall (n m : nat) (IM IM' : list (list R)) (a b s0 s1 : Z),
-  wf n m IM -> wf n m IM' -> (0 < n)%nat -> translated IM IM' a b -> psym IM s0 s1 -> total IM <> 0 ->
+(* ... and so does the origin reported by the convolution method, for ANY image
+   (no symmetry needed) whose two projections are not identically zero: the
+   autoconvolution of the translated projection is the autoconvolution
+   translated by 2a (zero outside) and the first argmax follows it.  The side
+   condition is needed: for a zero projection every translation relation holds
+   and the argmax stays at index 0.  (translated already says that the content
+   stays inside the frame.)  A non-zero total intensity implies it. *)
+Theorem C13_conv_shift :
+  forall (n m : nat) (IM IM' : list (list R)) (a b : Z),
+  wf n m IM -> wf n m IM' -> (0 < n)%nat -> translated IM IM' a b ->
+  (exists i, pz (proj0R IM) i <> 0) -> (exists j, pz (proj1R IM) j <> 0) ->
   find_originR Convolution IM' true true =
   (fst (find_originR Convolution IM true true) + IZR a, snd (find_originR Convolution IM true true) + IZR b).
-Proof. exact conv_shift_symmetric. Qed.
-Print Assumptions C13_conv_shift_partial.
+Proof. exact conv_shift. Qed.
+Print Assumptions C13_conv_shift.
+
+Theorem C13_total_projections :
+  forall (n m : nat) (IM : list (list R)), wf n m IM -> (0 < n)%nat -> total IM <> 0 ->
+  (exists i, pz (proj0R IM) i <> 0) /\ (exists j, pz (proj1R IM) j <> 0).
+Proof. exact total_projections. Qed.
+Print Assumptions C13_total_projections.
+
+(* one axis: any profile that is not identically zero *)
+Theorem C13_conv_shift_1d :
+  forall (p p' : list R) (a : Z),
+  length p' = length p -> (forall k, pz p' k = pz p (k - a)) -> (exists i, pz p i <> 0) ->
+  conv_axisR p' = conv_axisR p + IZR a.
+Proof. exact conv_shift_1d. Qed.
+Print Assumptions C13_conv_shift_1d.
 
 (* Multiplying the image by a (positive, indeed any non-zero) constant does not
    move the reported origin. *)
